@@ -627,13 +627,16 @@ cdef class CPUDomainManager(DomainManagerBase):
                         high.append(i)
                         high_translate.append(2*(ymax - yi))
 
+                # extract both sets before appending either: appending
+                # re-aligns `added`, which invalidates the indices.
                 copy = added.extract_particles(low)
+                high_copy = added.extract_particles(high)
                 if copy.get_number_of_particles() > 0:
                     self._add_array_to_array(copy.get_carray('y'), low_translate)
                     self._mul_to_array(copy.get_carray('v'), -1)
                     added.append_parray(copy)
 
-                copy = added.extract_particles(high)
+                copy = high_copy
                 if copy.get_number_of_particles() > 0:
                     self._add_array_to_array(copy.get_carray('y'), high_translate)
                     self._mul_to_array(copy.get_carray('v'), -1)
@@ -668,13 +671,16 @@ cdef class CPUDomainManager(DomainManagerBase):
                         high.append(i)
                         high_translate.append(2*(zmax - zi))
 
+                # extract both sets before appending either: appending
+                # re-aligns `added`, which invalidates the indices.
                 copy = added.extract_particles(low)
+                high_copy = added.extract_particles(high)
                 if copy.get_number_of_particles() > 0:
                     self._add_array_to_array(copy.get_carray('z'), low_translate)
                     self._mul_to_array(copy.get_carray('w'), -1)
                     added.append_parray(copy)
 
-                copy = added.extract_particles(high)
+                copy = high_copy
                 if copy.get_number_of_particles() > 0:
                     self._add_array_to_array(copy.get_carray('z'), high_translate)
                     self._mul_to_array(copy.get_carray('w'), -1)
